@@ -1,5 +1,6 @@
 """C12  optimize() always terminates, and analysis functions never mutate their input."""
 import copy
+import itertools
 import json
 import random
 import sys
@@ -112,6 +113,13 @@ def py_invocations(p):
     finally:
         sys.setprofile(None)
     return o, n
+
+
+def optcorr_call(p, x):
+    try:
+        return bool(p(x))
+    except Exception as e:  # noqa: BLE001
+        return type(e).__name__
 
 
 def main(tier):
@@ -269,6 +277,46 @@ def main(tier):
             if not same:
                 chk.add_failure(s if isinstance(s, str) else S.show(s), {"what": f"{op} answers differently on the used object and on a fresh copy"}, None)
                 break
+    # 3b. directed purity: a leaf with a mutable parameter (a set) below a wrapper that optimises away to that very leaf object
+    #     (x & true, ~~x, x | x, ...), combined with a partner the set-algebra rules merge it with: optimize may hand the caller's
+    #     leaf on, it may not write into it
+    from predicate import always_false_p as _ff, always_true_p as _tt, eq_p as _eq, in_p as _in, is_subset_p as _sub, is_superset_p as _sup, ne_p as _ne, not_in_p as _nin
+
+    leaves = [("in_p(1, 2)", lambda: _in(1, 2)), ("not_in_p(1, 2)", lambda: _nin(1, 2)), ("in_p(1, 2, 3)", lambda: _in(1, 2, 3)), ("is_subset_p({1, 2})", lambda: _sub({1, 2})),
+              ("is_superset_p({1, 2})", lambda: _sup({1, 2})), ("in_p(1)", lambda: _in(1))]
+    wraps = [("x", lambda x, mk: x), ("x & true", lambda x, mk: x & _tt), ("true & x", lambda x, mk: _tt & x), ("~~x", lambda x, mk: ~~x), ("x | x'", lambda x, mk: x | mk()), ("x & x'", lambda x, mk: x & mk()),
+             ("x | false", lambda x, mk: x | _ff), ("false ^ x", lambda x, mk: _ff ^ x), ("~~(x & true)", lambda x, mk: ~~(x & _tt))]
+    partners = [("eq_p(3)", lambda: _eq(3)), ("eq_p(1)", lambda: _eq(1)), ("ne_p(3)", lambda: _ne(3)), ("ne_p(1)", lambda: _ne(1)), ("in_p(3, 4)", lambda: _in(3, 4)), ("in_p(2, 3)", lambda: _in(2, 3)),
+                ("not_in_p(2, 3)", lambda: _nin(2, 3)), ("not_in_p(5)", lambda: _nin(5)), ("is_subset_p({2, 3})", lambda: _sub({2, 3})), ("is_superset_p({3})", lambda: _sup({3}))]
+    import operator as _op
+
+    directed = 0
+    for (dl, mkl), (dw, wr), (dp, mkp) in itertools.product(leaves, wraps, partners):
+        for sym, f in (("&", _op.and_), ("|", _op.or_), ("^", _op.xor)):
+            for order in (0, 1):
+                leaf, partner = mkl(), mkp()
+                w = wr(leaf, mkl)
+                t = f(w, partner) if order == 0 else f(partner, w)
+                text = f"({dw} with x = {dl}) {sym} {dp}" if order == 0 else f"{dp} {sym} ({dw} with x = {dl})"
+                before, lbefore = snapshot(t), snapshot(leaf)
+                probes = [0, 1, 2, 3, 4, 5, {1}, {1, 2}, {2, 3}, {1, 2, 3}, set()]
+                ans = [optcorr_call(t, x) for x in probes]
+                for opname, fn in (("optimize", optimize), ("can_optimize", can_optimize)):
+                    directed += 1
+                    try:
+                        optcorr._watchdog(lambda fn=fn, t=t: fn(t), ("tt",))
+                    except optcorr.HarnessError:
+                        raise
+                    except Exception:  # noqa: BLE001
+                        pass
+                    if snapshot(t) != before or snapshot(leaf) != lbefore:
+                        chk.add_failure(text, {"what": f"{opname} mutated its argument (a leaf reached through a wrapper that optimises away)", "leaf_before": str(lbefore)[:200], "leaf_after": str(snapshot(leaf))[:200]}, None)
+                        break
+                    if [optcorr_call(t, x) for x in probes] != ans:
+                        chk.add_failure(text, {"what": f"after {opname} the argument answers differently"}, None)
+                        break
+    chk.evaluations += directed
+    chk.extra["purity_directed_wrapped_leaves"] = directed
     chk.evaluations += calls
     chk.extra["purity_sequences"] = nseq
     chk.extra["purity_calls"] = calls
